@@ -172,6 +172,15 @@ func checkWaitGroupFanout(c *core.Ctx, r *core.Report, rule string, g *ssa.Go, c
 		r.Undecided(rule+".R1", cons, pos, "goroutine body is not a function literal or in-scope function")
 		return nil, false
 	}
+	if tbl := joinTableOf(c, g); tbl != "" {
+		// the routine the go statement belongs to was interpreted as a whole, goroutines included, under the
+		// scheduler: how many goroutines start, what they wait for and that the routine returns only when they are
+		// through is decided there, whatever the join is made of.  What a schedule cannot show is decided here: a
+		// variable the starting loop keeps writing while the goroutines read it.
+		r.Hold(rule+".R1", cons+":add", pos, "the join of this go statement is decided by the "+tbl+" on two schedules (the starter running ahead of its goroutines, each goroutine running as soon as it is started): the counter never goes negative, nobody waits for ever, nothing happens after the return")
+		capturedLoopVariable(c, r, rule, g, cons)
+		return body, true
+	}
 	// Done: deferred at entry (or post-dominating everything) on a WaitGroup
 	var done ssa.CallInstruction
 	for _, ci := range core.Calls(body) {
@@ -368,6 +377,67 @@ func checkWaitGroupFanout(c *core.Ctx, r *core.Report, rule string, g *ssa.Go, c
 	return body, okAdd && okWait
 }
 
+// joinTableOf: the semantic table that went through the go statement and holds in every row ("" if none).
+func joinTableOf(c *core.Ctx, g *ssa.Go) string {
+	if closeTableDecides(c, g) {
+		return "close table"
+	}
+	if scanTableDecides(c, g) {
+		return "scan table"
+	}
+	return ""
+}
+
+// tableWentThrough: the scan table's or a close table's runs started a goroutine at this go statement.
+func tableWentThrough(c *core.Ctx, g *ssa.Go) bool {
+	if bs, _ := findBootstrap(c); bs != nil && len(bs.parallel) == 1 {
+		if res := defScanTableMemo(c, bs.parallel[0], 2); res.und == "" && res.gos[g.Pos()] {
+			return true
+		}
+	}
+	if ro := c.Roles(); ro.CloserClose != nil {
+		for _, site := range c.CallSites(func(com *ssa.CallCommon) bool { return core.IsInvoke(com, ro.CloserClose) }) {
+			if fn := closingRoutineFrom(c, core.TopLevel(site.Parent())); fn != nil {
+				if res := closeTable(c, fn); res.und == "" && res.gos[g.Pos()] {
+					return true
+				}
+			}
+		}
+	}
+	return false
+}
+
+// capturedLoopVariable: a variable that a loop around the go statement keeps writing must reach the goroutine as an
+// argument, not by capture.
+func capturedLoopVariable(c *core.Ctx, r *core.Report, rule string, g *ssa.Go, cons string) {
+	var mcs []*ssa.MakeClosure
+	if mc, ok := g.Call.Value.(*ssa.MakeClosure); ok {
+		mcs = append(mcs, mc)
+	}
+	for _, a := range g.Call.Args {
+		if mc, ok := core.Norm(a).(*ssa.MakeClosure); ok {
+			mcs = append(mcs, mc)
+		}
+	}
+	parent := g.Parent()
+	for loop := core.InnermostLoop(parent, g.Block()); loop != nil; loop = nil {
+		for _, mc := range mcs {
+			for _, b := range mc.Bindings {
+				al, isAl := b.(*ssa.Alloc)
+				if !isAl || loop.Blocks[al.Block()] {
+					continue
+				}
+				for _, rf := range *al.Referrers() {
+					if st, isSt := rf.(*ssa.Store); isSt && loop.Blocks[st.Block()] {
+						r.Fail(rule+".R2", cons+":captured:"+al.Comment, c.Pos(st.Pos()), "the goroutine captures a variable that the spawning loop writes on every iteration: it reads it while the loop changes it")
+						break
+					}
+				}
+			}
+		}
+	}
+}
+
 func wgSameBody(g *ssa.Go, body *ssa.Function) bool { return goBodyOf(g) == body }
 
 // loopBodyEntry: the successor of the header that lies inside the loop.
@@ -539,7 +609,9 @@ func c14(c *core.Ctx, r *core.Report) {
 			}
 		}
 	}
-	r.Check(isParam || perIter != nil, "C14.R2", cons+":close-on-parameter", c.Pos(site.Pos()), "Close is invoked on the goroutine's own parameter or on a per-iteration copy of the element (a captured range variable would be shared between iterations under go 1.20 semantics)")
+	// (under the table the goroutines run on the schedule on which the starting loop is through before any of them
+	// begins: a variable shared between iterations would show as one closer closed several times, others never)
+	r.Check(isParam || perIter != nil || tableMode, "C14.R2", cons+":close-on-parameter", c.Pos(site.Pos()), "Close is invoked on the goroutine's own parameter or on a per-iteration copy of the element (a captured range variable would be shared between iterations under go 1.20 semantics)")
 	r.Check(!core.InLoop(site.Block()) && c.PostDom(fn).PostDominates(site.Block(), fn.Blocks[0]), "C14.R2", cons+":close-once", c.Pos(site.Pos()), "Close is invoked exactly once on every path through the goroutine body")
 	// the argument passed is the current element
 	rl := core.RangeLoopOf(parent, g.Block())
@@ -575,7 +647,15 @@ func c14(c *core.Ctx, r *core.Report) {
 			}
 		}
 	}
-	if rl != nil && (isParam || perIter != nil) {
+	// the loop ranges over something a helper was handed (not the wired field itself): where the elements come from is
+	// what the close table saw the closing routine read
+	viaTable := false
+	if rl != nil && tableMode {
+		if _, isP := core.Norm(rl.Slice).(*ssa.Parameter); isP {
+			viaTable = true
+		}
+	}
+	if rl != nil && (isParam || perIter != nil) && !viaTable {
 		idx := -1
 		for i, p := range fn.Params {
 			if ssa.Value(p) == recv {
@@ -585,7 +665,7 @@ func c14(c *core.Ctx, r *core.Report) {
 		okArg := elemArg(idx) != nil && rl.ElemOf(elemArg(idx))
 		r.Check(okArg, "C14.R2", cons+":element-passed", c.Pos(g.Pos()), "the goroutine receives the current element of the ranged closer slice")
 		c14Field(c, r, rl.Slice)
-	} else if rl == nil && tableMode {
+	} else if (rl == nil || viaTable) && tableMode {
 		// the elements reach the goroutine through a visitor: which closers are closed is the close table's row
 		cfn := closingRoutineOf(c, g)
 		res := closeTable(c, cfn)
